@@ -6,6 +6,8 @@ comparison / hashing / dict and library lookups, bounded-exhaustive over
 orderings and run-length spellings.
 """
 import collections
+import os
+import json
 import itertools
 
 from vmon.core.obs import observe
@@ -326,8 +328,79 @@ def multisets(maxn):
             yield collections.Counter(combo)
 
 
+CHILD = r'''
+import pickle, sys, json
+sys.path.insert(0, sys.argv[2])
+from pgradd.GroupAdd.Group import Group, Descriptor
+data = pickle.load(open(sys.argv[1], 'rb'))
+bad = []
+for kind, name, obj in data:
+    fresh = Group.parse(None, name) if kind == 'g' else Descriptor(None, name)
+    if not (obj == fresh) or not (fresh == obj) or obj != fresh:
+        bad.append([name, 'unpickled object != freshly built equal one'])
+    elif hash(obj) != hash(fresh) or hash(obj) != hash(name):
+        bad.append([name, 'equal objects hash differently after unpickling'])
+    elif {fresh: 1}.get(obj) != 1 or {obj: 1}.get(fresh) != 1 or \
+            {name: 1}.get(obj) != 1 or obj not in {fresh}:
+        bad.append([name, 'dict / set lookup misses after unpickling'])
+print('@@' + json.dumps({'n': len(data), 'bad': bad[:5]}))
+'''
+
+
+def check_other_process(ctx):
+    """Identity must survive the trip into ANOTHER interpreter (pickle), whose
+    string hashes are salted differently."""
+    import pickle
+    import subprocess
+    import sys
+    import tempfile
+    from pgradd.GroupAdd.Group import Group, Descriptor
+    import pgradd
+    data = []
+    r = ctx.sub_rng('c19pickle', ctx.shard)
+    for _ in range(60):
+        cnt = collections.Counter(r.choice(PERIPH)
+                                  for _ in range(r.randint(0, 5)))
+        g = Group(None, r.choice(CENTRES), sorted(cnt.elements()))
+        data.append(('g', g.name, g))
+    for nm in ('Oxirane', 'Cis', 'surface-ring strain'):
+        data.append(('d', nm, Descriptor(None, nm)))
+    with tempfile.TemporaryDirectory(prefix='vmon_c19_') as td:
+        p = os.path.join(td, 'groups.pkl')
+        try:
+            with open(p, 'wb') as f:
+                pickle.dump(data, f)
+        except Exception as exc:
+            ctx.skip('groups cannot be pickled (%s)' % type(exc).__name__)
+            return
+        env = dict(os.environ, PYTHONHASHSEED=str(1000 + ctx.shard * 7 +
+                                                   ctx.seed))
+        root = os.path.dirname(os.path.dirname(os.path.abspath(
+            pgradd.__file__)))
+        out = subprocess.run([sys.executable, '-W', 'ignore', '-c', CHILD, p,
+                              root], capture_output=True, text=True, env=env,
+                             timeout=300)
+    ctx.evals()
+    line = [ln for ln in out.stdout.split('\n') if ln.startswith('@@')]
+    if not line:
+        ctx.violation('groups pickled here cannot be used in another '
+                      'interpreter', {'what': 'cross-process pickle'},
+                      {'stderr': out.stderr[-600:]})
+        return
+    rep = json.loads(line[0][2:])
+    if rep['bad']:
+        ctx.violation('group identity does not survive pickling into another '
+                      'interpreter: %s' % rep['bad'][0][1],
+                      {'what': 'cross-process pickle'}, {'examples':
+                                                         rep['bad']})
+        return
+    ctx.count('groups_checked_in_another_interpreter', rep['n'])
+
+
 def run_shard(ctx):
     i = 0
+    if ctx.shard % 4 == 0:
+        check_other_process(ctx)
     maxn = 4 if ctx.tier == 'quick' else 5
     for cnt in multisets(maxn):
         for centre in CENTRES:
